@@ -601,6 +601,14 @@ func c17ViewSequence(r *fw.Rec, kind, w, h int, sample bool) bool {
 		if c, d := c17CheckView(src, v, rng); c != "" {
 			return fail("New", c, d)
 		}
+		// every view along the way is kept: deriving a view (and reading through it) leaves the
+		// views it was derived from as they were - re-read at the end of the sequence
+		type keptView struct {
+			src   gozxing.LuminanceSource
+			v     *c17View
+			after int
+		}
+		kept := []keptView{{src, v, 0}}
 		r.Tally("source_" + c17KindName[kind])
 		if s.free > 0 {
 			r.Tally("source_with_colour_or_alpha_pixels")
@@ -728,9 +736,20 @@ func c17ViewSequence(r *fw.Rec, kind, w, h int, sample bool) bool {
 			if c, d := c17CheckView(src, v, rng); c != "" {
 				return fail(c17OpName(trace[len(trace)-1]), c, d)
 			}
+			if len(kept) < 8 && kept[len(kept)-1].src != src {
+				kept = append(kept, keptView{src, v, len(trace)})
+			}
 			r.Evals(1)
 			r.Tally("view_steps_checked")
 			r.TallyN("rows_checked", int64(v.h))
+		}
+		if len(kept) > 1 {
+			for _, k := range kept[:len(kept)-1] {
+				if c, d := c17CheckView(k.src, k.v, rng); c != "" {
+					return fail("earlier-view", "changed-by-later-operations:"+c, fmt.Sprintf("the view as it was after %d of the operations no longer shows its picture once the later ones ran: %s", k.after, d))
+				}
+			}
+			r.Tally("earlier_views_rechecked_after_the_sequence")
 		}
 		r.Max("max_ops_in_sequence", int64(len(trace)))
 		r.Max("max_side", int64(w))
